@@ -297,7 +297,24 @@ def suite_mul(g, n, big=False):
     rng = g.rng
     for _ in range(n):
         op = rng.choice(['mul_naive', 'addmul_naive', 'mul_va', 'mul_naive_t', 'mul_m4rm', 'addmul_m4rm', 'mul', 'mul',
-                         'addmul', 'addmul'])
+                         'addmul', 'addmul', 'djb', 'mul_mp', 'addmul_mp'])
+        if op == 'djb':
+            m, l, nn = rng.randint(1, 40), rng.randint(1, 150), rng.randint(1, 150)
+            A = g.mat(m, l, kind=rng.choice(['dense', 'sparse', 'identity', 'lowrank', 'zero', 'single']))
+            V = g.mat(l, nn)
+            W = g.mat(m, nn, kind='zero')
+            g.add(op, '%s %s %s' % (W, A, V), m=m, l=l, n=nn)
+            continue
+        if op in ('mul_mp', 'addmul_mp'):
+            cutoff = rng.choice([0, 64, 64, 128, 256])
+            c = max(64, cutoff) if cutoff else 64
+            m, l, nn = (rng.choice([rng.randint(1, 2 * c), rng.randint(2 * c, 4 * c + 10), 128 * rng.randint(1, 3)]) for _ in range(3))
+            if not big:
+                m, l, nn = min(m, 300), min(l, 300), min(nn, 300)
+            A, B = mul_operands(g, m, l, nn)
+            C = dst(g, m, nn) if op == 'mul_mp' else g.mat(m, nn, kind='dense')
+            g.add(op, '%s %s %s %d' % (C, A, B, cutoff), m=m, l=l, n=nn, cutoff=cutoff)
+            continue
         m, l, nn = mdim(g, big), mdim(g, big), mdim(g, big)
         if op in ('mul', 'addmul'):
             # Strassen region: cut-offs 64..256; shapes around the split limits [4c/3, 2c) and beyond
@@ -788,3 +805,66 @@ def suite_c19(g, tier):
             nrows = rng.randint(k, k + 5)
             r = rng.randint(0, nrows - k)
             g.add('make_table', '%s %d %d %d' % (g.mat(nrows, ncols, kind='dense'), r, c_, k), k=k)
+
+
+# ------------------------------------------------------------------ C18
+def jcf_tokens(g, m, n, rows):
+    toks = []
+    nnz = 0
+    for i in range(m):
+        cols = [j + 1 for j in range(n) if (rows[i] >> j) & 1]
+        if not cols:
+            continue   # a row without entries cannot be denoted (row advance happens on a negative index)
+        toks.append(-cols[0])
+        toks += cols[1:]
+        nnz += len(cols)
+    return [m, n, 2, nnz] + toks
+
+
+def suite_io(g, n):
+    rng = g.rng
+    for _ in range(n):
+        op = rng.choice(['png_roundtrip', 'png_roundtrip', 'jcf_ok', 'jcf_bad', 'jcf_bad', 'from_str', 'png_hdr', 'png_corrupt'])
+        if op == 'png_roundtrip':
+            r = rng.randint(1, 6)
+            c = rng.choice([rng.randint(1, 70), rng.randint(1, 300), 64 * rng.randint(1, 3) + rng.randint(0, 63)])
+            g.add(op, '%s %d %d' % (g.mat(r, c), rng.randint(0, 9), rng.randint(0, 1)), c=c)
+        elif op == 'jcf_ok':
+            m, nn = rng.randint(1, 8), rng.randint(1, 140)
+            rows = g.rows_kind(m, nn, rng.choice(['sparse', 'dense', 'identity', 'single']))
+            # the format cannot denote an empty row followed by non-empty ones: make every row non-empty up to the last used
+            rows = [v if v else 1 for v in rows]
+            g.add('jcf_read', ' '.join(map(str, jcf_tokens(g, m, nn, rows))), m=m, n=nn)
+        elif op == 'jcf_bad':
+            m, nn = rng.randint(1, 6), rng.randint(1, 70)
+            rows = [v if v else 1 for v in g.rows_kind(m, nn, 'sparse')]
+            toks = jcf_tokens(g, m, nn, rows)
+            kind = rng.choice(['zero', 'positive_first', 'too_big', 'too_many_rows', 'modulus', 'short_header', 'neg_big', 'neg_dims'])
+            if kind == 'zero':
+                toks[rng.randint(4, len(toks) - 1)] = 0
+            elif kind == 'positive_first':
+                toks[4] = abs(toks[4])
+            elif kind == 'too_big':
+                toks[rng.randint(4, len(toks) - 1)] = nn + rng.choice([1, 1, 2, 64, 1000])
+            elif kind == 'neg_big':
+                toks[rng.randint(4, len(toks) - 1)] = -(nn + rng.choice([1, 2, 64]))
+            elif kind == 'too_many_rows':
+                toks += [-1] * (m + 1)
+            elif kind == 'modulus':
+                toks[2] = rng.choice([0, 3, 7])
+            elif kind == 'short_header':
+                toks = toks[:rng.randint(1, 3)]
+            else:
+                toks[rng.randint(0, 1)] = -rng.randint(1, 5)
+            g.add('jcf_read', ' '.join(map(str, toks)), kind=kind)
+        elif op == 'from_str':
+            m, nn = rng.randint(1, 5), rng.randint(1, 80)
+            g.add('from_str', '%d %d %s' % (m, nn, ''.join(rng.choice('01') for _ in range(m * nn))))
+        elif op == 'png_hdr':
+            depth, ct = rng.choice([(1, 0), (2, 0), (4, 0), (8, 0), (16, 0), (1, 3), (2, 3), (4, 3), (8, 3), (8, 2), (16, 2), (8, 4),
+                                    (16, 4), (8, 6), (16, 6)])
+            g.add('png_hdr', '%d %d %d %d' % (rng.randint(1, 130), rng.randint(1, 4), depth, ct), depth=depth, ct=ct)
+        else:
+            r, c = rng.randint(1, 5), rng.randint(1, 200)
+            g.add('png_corrupt', '%s %d %d' % (g.mat(r, c, place='o'), rng.choice([1000, 1000, 900, 700, 500, 300, 100, 50, 20, 8]),
+                                              rng.choice([-1, -1, rng.randint(8, 120)])))
